@@ -598,6 +598,9 @@ class Device(device.Device):
         assert target.brty_send == target.brty_recv
 
         br = int(target.brty[0:-1])
+        if br not in (106, 212, 424):
+            info = "unsupported bitrate {0}".format(target.brty)
+            raise nfc.clf.UnsupportedTargetError(info)
         nfcid3 = target.atr_req[2:12]
         gbytes = target.atr_req[16:]
         try:
